@@ -435,6 +435,36 @@ func c06(c *Ctx) {
 			}
 		}
 	}
+	// the same formats written as string concatenation: a + "." + b + "." + c is "%s.%s.%s"
+	concatRoots := map[*ssa.Function][]*ssa.BinOp{}
+	for _, f := range p.FuncsIn("") {
+		if f.Blocks == nil {
+			continue
+		}
+		eachInstr(f, func(i ssa.Instruction) {
+			bo, ok := i.(*ssa.BinOp)
+			if !ok || bo.Op != token.ADD || !isString(bo.Type()) {
+				return
+			}
+			// a root: not itself an operand of a longer concatenation
+			if bo.Referrers() != nil {
+				for _, ref := range *bo.Referrers() {
+					if b2, ok := ref.(*ssa.BinOp); ok && b2.Op == token.ADD && isString(b2.Type()) {
+						return
+					}
+				}
+			}
+			format := stringConcatFormat(bo, 0)
+			if format == "" {
+				return
+			}
+			concatRoots[f] = append(concatRoots[f], bo)
+			fmts[shortName(f)+"|"+format] = true
+			if f.Signature.Recv() != nil && nameBuilder[f] {
+				fmts["name builder of "+types.TypeString(f.Signature.Recv().Type(), func(*types.Package) string { return "mocker" })+"|"+format] = true
+			}
+		})
+	}
 	for _, spec := range []struct{ fn, want string }{
 		{"name builder of *mocker.UnexportedMethodMocker", "%s.%s.%s"},
 		{"name builder of *mocker.UnexportedFuncMocker", "%s.%s"},
@@ -450,11 +480,20 @@ func c06(c *Ctx) {
 		if fn == nil {
 			continue
 		}
+		var sites []ssa.Instruction
 		for _, cs := range callsTo(fn, "fmt.Sprintf") {
 			c, ok := callCommon(cs).Args[0].(*ssa.Const)
 			if !ok || c.Value == nil || constant.StringVal(c.Value) != "(%s)" {
 				continue
 			}
+			sites = append(sites, cs)
+		}
+		for _, bo := range concatRoots[fn] {
+			if stringConcatFormat(bo, 0) == "(%s)" {
+				sites = append(sites, bo)
+			}
+		}
+		for _, cs := range sites {
 			okG := false
 			for _, g := range guardsAt(cs.Block()) {
 				if cl, ok := g.Cond.(*ssa.Call); ok && g.Pol && calleeName(cl.Common()) == "strings.Contains" {
@@ -570,4 +609,36 @@ func checkExactNameDerivation(p *Prog, r *Report, rule string) {
 	if n == 0 {
 		r.Und(rule, "by-name lookups", "", "no call of a by-name symbol lookup found in the root package")
 	}
+}
+
+
+// stringConcatFormat renders a chain of string additions as the equivalent Sprintf format: constant parts literally (with %
+// doubled), every other part as %s. "" when v is not such a chain with at least one constant and one variable part.
+func stringConcatFormat(v ssa.Value, depth int) string {
+	var parts []ssa.Value
+	var flat func(x ssa.Value, d int)
+	flat = func(x ssa.Value, d int) {
+		if bo, ok := x.(*ssa.BinOp); ok && bo.Op == token.ADD && isString(bo.Type()) && d < 8 {
+			flat(bo.X, d+1)
+			flat(bo.Y, d+1)
+			return
+		}
+		parts = append(parts, x)
+	}
+	flat(v, depth)
+	out := ""
+	nConst, nVar := 0, 0
+	for _, pt := range parts {
+		if c, ok := pt.(*ssa.Const); ok && c.Value != nil && c.Value.Kind() == constant.String {
+			out += strings.ReplaceAll(constant.StringVal(c.Value), "%", "%%")
+			nConst++
+		} else {
+			out += "%s"
+			nVar++
+		}
+	}
+	if nConst == 0 || nVar == 0 {
+		return ""
+	}
+	return out
 }
